@@ -46,6 +46,9 @@ pub struct Spec {
     /// path "interleaved": pipelines that run a second pass over the SAME dataflow Message
     #[serde(default)]
     pub second_pass: Vec<usize>,
+    /// configuration: a tracing subscriber that wants every level is installed (diagnostics on)
+    #[serde(default)]
+    pub diag: bool,
 }
 
 pub struct C15;
@@ -95,12 +98,13 @@ fn run_interleaved(scs: &[scen::Scenario], spec: &Spec, ctx: &Arc<seam::RunCtx>,
         let (rtx, rrx) = mpsc::channel::<Result<(), String>>();
         cmd_tx.push(tx);
         resp_rx.push(rrx);
+        let diag = spec.diag;
         handles.push(std::thread::spawn(move || {
             let _a = seam::attach(&ctx_c);
             while let Ok(Some((p, t))) = rx.recv() {
                 let r = std::panic::catch_unwind(std::panic::AssertUnwindSafe(|| {
                     let mut m = msgs_c[p].lock().unwrap_or_else(|e| e.into_inner());
-                    run_task(t, &mut m)
+                    with_diag(diag, || run_task(t, &mut m))
                 }))
                 .unwrap_or_else(|p| Err(format!("PANIC {}", p.downcast_ref::<String>().cloned().or(p.downcast_ref::<&str>().map(|s| s.to_string())).unwrap_or_default())));
                 if rtx.send(r).is_err() {
@@ -246,11 +250,25 @@ fn workflow(mt: &str) -> Result<Workflow, String> {
 /// "why tests can't" names.
 fn probes(out: &mut Outcome, generated: &Value, text: &str) {
     let mut b4_lines = 0u64;
+    let mut cur_tag = String::new();
     for line in text.lines() {
         b4_lines += 1;
+        let content = match line.strip_prefix(':').and_then(|rest| rest.find(':').map(|c| (rest, c))) {
+            Some((rest, c)) => {
+                cur_tag = rest[..c].to_string();
+                &rest[c + 1..]
+            }
+            None => line,
+        };
+        if content.chars().count() == 35 && !cur_tag.is_empty() && !line.starts_with('{') {
+            out.count(&format!("probe.len35.{cur_tag}"), 1);
+        }
         let n = line.chars().count();
         if n == 35 {
             out.count("probe.line_exactly_35", 1);
+        }
+        if n == 34 {
+            out.count("probe.line_exactly_34", 1);
         }
         if line.ends_with(' ') {
             out.count("probe.line_trailing_blank", 1);
@@ -501,6 +519,7 @@ impl Engine for C15 {
             steps,
             poison,
             second_pass,
+            diag: wl.chance(1, 3),
         }
     }
 
@@ -532,15 +551,21 @@ impl Engine for C15 {
             }
         }
         let spec_c = spec.clone();
+        let diag = spec.diag;
         let res = on_fresh_thread(move || {
             let _a = seam::attach(&ctx2);
             let _ = std::collections::hash_map::RandomState::new();
-            if path == "sample" {
-                run_sample(&sc, &mut o2)
-            } else if path == "interleaved" {
-                run_interleaved(&scs, &spec_c, &ctx2, &mut o2)
-            } else {
-                run_plugin(&sc, &mut o2)
+            with_diag(diag, || {
+                if path == "sample" {
+                    run_sample(&sc, &mut o2)
+                } else if path == "interleaved" {
+                    run_interleaved(&scs, &spec_c, &ctx2, &mut o2)
+                } else {
+                    run_plugin(&sc, &mut o2)
+                }
+            });
+            if diag {
+                o2.count("config.diagnostics_subscriber_installed", 1);
             }
             o2
         });
@@ -567,6 +592,11 @@ impl Engine for C15 {
         }
         out.count(&format!("path.{}", spec.path), 1);
         if out.violation.is_none() && out.discard.is_none() {
+            // per (scenario, tag) boundary-length lines: the tag is part of the key so that a rare
+            // 35-character line in one particular field is kept even where such lines are common elsewhere
+            for k in out.counters.keys().filter(|k| k.starts_with("probe.len35.")).cloned().collect::<Vec<_>>() {
+                out.harvest.push(format!("{k}|{}", spec.scenario));
+            }
             for k in ["probe.drawn_string_line_ends_in_blank", "probe.drawn_string_line_starts_with_blank", "probe.drawn_string_double_blank", "probe.drawn_string_line_edge_hyphen", "probe.drawn_string_line_starts_with_colon", "probe.line_trailing_blank", "probe.amount_3plus_decimals"] {
                 if out.counters.contains_key(k) {
                     out.harvest.push(format!("{k}|{}", spec.scenario));
@@ -595,6 +625,11 @@ impl Engine for C15 {
                 s.clock.jumps.remove(k);
                 v.push(s);
             }
+        }
+        if spec.diag {
+            let mut s = spec.clone();
+            s.diag = false;
+            v.push(s);
         }
         if spec.path == "sample" {
             let mut s = spec.clone();
